@@ -31,42 +31,47 @@ theorem scenarioTimeout_eq (ms : Nat) :
     simp [h, this]
 
 /-- the selection reads the gun's configured timeout -/
-theorem gunTimeoutConf_eq : Gen.GrpcGun.gunTimeoutConf = "g.Conf.Timeout" := rfl
-theorem scenarioTimeoutConf_eq : Gen.GrpcGun.scenarioTimeoutConf = "g.gun.Conf.Timeout" := rfl
+theorem gunTimeoutConf_eq : Gen.GrpcGun.gunTimeoutConf = "$recv.Conf.Timeout" := rfl
+theorem scenarioTimeoutConf_eq : Gen.GrpcGun.scenarioTimeoutConf = "$recv.gun.Conf.Timeout" := rfl
 
 /-- the context given to `InvokeRpc` is `WithTimeout(Background, timeout)` wrapped by `NewOutgoingContext`: one
 deadline PER CALL, made inside `shoot` / `shootStep` -/
 theorem gunContextChain_eq : Gen.GrpcGun.gunContextChain = "WithTimeout>NewOutgoingContext>InvokeRpc" := rfl
 theorem scenarioContextChain_eq : Gen.GrpcGun.scenarioContextChain = "WithTimeout>NewOutgoingContext>InvokeRpc" := rfl
 
-/-! ### method, message, metadata of the call -/
+/-! ### method, message, metadata of the call
+
+In the regenerated strings `$recv` is the method's receiver, `$0`, `$1` … its parameters by position, `$key` / `$value` the
+variables of a range statement, `resultN(e)` the N-th result of the multi-valued `e`; local variables are replaced by
+their single definition. Renaming a local, a parameter or the receiver, or reordering independent statements, leaves
+them unchanged. -/
 
 /-- method descriptor = the reflected table at the ammo's `Call`; message = a dynamic message of that method's INPUT
 type filled by `UnmarshalJSON` from the marshalled payload map; metadata = the ammo's metadata; sent through the
 instance's stub -/
-theorem gunMethodSource_eq : Gen.GrpcGun.gunMethodSource = "first(g.Services[ammo.Call])" := rfl
+theorem gunMethodSource_eq : Gen.GrpcGun.gunMethodSource = "result0($recv.Services[$0.Call])" := rfl
 theorem gunMessageSource_eq :
-    Gen.GrpcGun.gunMessageSource = "dynamic.NewMessage(first(g.Services[ammo.Call]).GetInputType())" := rfl
-theorem gunMessageFill_eq : Gen.GrpcGun.gunMessageFill = "UnmarshalJSON(first(json.Marshal(ammo.Payload)))" := rfl
-theorem gunMetadataSent_eq : Gen.GrpcGun.gunMetadataSent = "ammo.Metadata" := rfl
-theorem gunStub_eq : Gen.GrpcGun.gunStub = "g.Stub.InvokeRpc" := rfl
+    Gen.GrpcGun.gunMessageSource = "dynamic.NewMessage(result0($recv.Services[$0.Call]).GetInputType())" := rfl
+theorem gunMessageFill_eq : Gen.GrpcGun.gunMessageFill = "UnmarshalJSON(result0(json.Marshal($0.Payload)))" := rfl
+theorem gunMetadataSent_eq : Gen.GrpcGun.gunMetadataSent = "$0.Metadata" := rfl
+theorem gunStub_eq : Gen.GrpcGun.gunStub = "$recv.Stub.InvokeRpc" := rfl
 
 /-- scenario step: the same with the step's `Call`; the message is filled from what `templ.Apply` returns for the
 step's payload template; the templater renders the metadata into a CLONE of the definition's map and that clone is
 what `metadata.New` gets (model variant `Variant.copy`) -/
-theorem scenarioMethodSource_eq : Gen.GrpcGun.scenarioMethodSource = "first(g.gun.Services[step.Call])" := rfl
+theorem scenarioMethodSource_eq : Gen.GrpcGun.scenarioMethodSource = "result0($recv.gun.Services[$0.Call])" := rfl
 theorem scenarioMessageSource_eq :
-    Gen.GrpcGun.scenarioMessageSource = "dynamic.NewMessage(first(g.gun.Services[step.Call]).GetInputType())" := rfl
+    Gen.GrpcGun.scenarioMessageSource = "dynamic.NewMessage(result0($recv.gun.Services[$0.Call]).GetInputType())" := rfl
 theorem scenarioMessageFill_eq :
     Gen.GrpcGun.scenarioMessageFill =
-      "UnmarshalJSON(first(g.templ.Apply(step.Payload, maps.Clone(step.Metadata), templateVars, ammoName, step.Name)))" := rfl
-theorem scenarioMetadataRendered_eq : Gen.GrpcGun.scenarioMetadataRendered = "maps.Clone(step.Metadata)" := rfl
-theorem scenarioMetadataSent_eq : Gen.GrpcGun.scenarioMetadataSent = "maps.Clone(step.Metadata)" := rfl
+      "UnmarshalJSON(result0($recv.templ.Apply($0.Payload, maps.Clone($0.Metadata), $3, $2, $0.Name)))" := rfl
+theorem scenarioMetadataRendered_eq : Gen.GrpcGun.scenarioMetadataRendered = "maps.Clone($0.Metadata)" := rfl
+theorem scenarioMetadataSent_eq : Gen.GrpcGun.scenarioMetadataSent = "maps.Clone($0.Metadata)" := rfl
 theorem scenarioSendsWhatItRendered_eq : Gen.GrpcGun.scenarioSendsWhatItRendered = true := rfl
-theorem scenarioApplyArgs_eq : Gen.GrpcGun.scenarioApplyArgs = "step.Payload,ammoName,step.Name" := rfl
-theorem scenarioStub_eq : Gen.GrpcGun.scenarioStub = "g.gun.Stub.InvokeRpc" := rfl
+theorem scenarioApplyArgs_eq : Gen.GrpcGun.scenarioApplyArgs = "$0.Payload,$2,$0.Name" := rfl
+theorem scenarioStub_eq : Gen.GrpcGun.scenarioStub = "$recv.gun.Stub.InvokeRpc" := rfl
 /-- `TextTemplater.Apply` writes the rendered values into the map it is given (which is why it must be a clone) -/
-theorem templaterWrites_eq : Gen.GrpcGun.templaterWrites = "1 index assignment(s) to parameter metadata" := rfl
+theorem templaterWrites_eq : Gen.GrpcGun.templaterWrites = "1 index assignment(s) to parameter $1 (the metadata map)" := rfl
 
 /-! ### template cache (templater_text.go): the model's cache is keyed by (gun, scenario, call, metadata key) -/
 
@@ -74,16 +79,16 @@ theorem templaterWrites_eq : Gen.GrpcGun.templaterWrites = "1 index assignment(s
 a template (the model's `World.caches` + `Cache` index) -/
 theorem templateCacheKey_eq : Gen.GrpcGun.templateCacheKey = "struct{scenario,step,part,key}" := rfl
 theorem templateLookups_eq : Gen.GrpcGun.templateLookups =
-    ["string(payload) | templateKey{scenario: scenarioName, step: stepName, part: partPayload}",
-     "v | templateKey{scenario: scenarioName, step: stepName, part: partMetadata, key: k}"] := rfl
+    ["string($0) | templateKey{scenario: $3, step: $4, part: partPayload}",
+     "$value | templateKey{scenario: $3, step: $4, part: partMetadata, key: $key}"] := rfl
 /-- payload and metadata templates are told apart by two different constants -/
 theorem templateParts_eq : Gen.GrpcGun.templateParts = [("partPayload", "payload"), ("partMetadata", "metadata")] := rfl
 
 /-! ### instances (`Bind`, shared_deps.go) -/
 
-theorem bindServices_eq : Gen.GrpcGun.bindServices = "sharedDeps.services" := rfl
+theorem bindServices_eq : Gen.GrpcGun.bindServices = "result0($1.Shared.(*SharedDeps)).services" := rfl
 theorem bindStub_eq : Gen.GrpcGun.bindStub =
-    "if sharedDeps.clientPool != nil then sharedDeps.clientPool.Next() else grpcdynamic.NewStub(conn)" := rfl
+    "if result0($1.Shared.(*SharedDeps)).clientPool != nil then result0($1.Shared.(*SharedDeps)).clientPool.Next() else grpcdynamic.NewStub(result0($recv.makeConnect()))" := rfl
 
 /-! ### endpoints (`Model/C20Net.lean`) -/
 
@@ -118,6 +123,23 @@ theorem replacePortStores_eq : Gen.GrpcGun.replacePortStores =
 theorem scenarioConfCopies_eq : Gen.GrpcGun.scenarioConfCopies =
     [("Target", "$0.Target"), ("ReflectPort", "$0.ReflectPort"), ("ReflectMetadata", "$0.ReflectMetadata"),
      ("Timeout", "$0.Timeout"), ("TLS", "$0.TLS")] := rfl
+
+/-! ### the scenario gun's failure path and the life time of its variables (`Model.C20.shootStep`, `shootSteps`, `svFor`) -/
+
+/-- a step that returns an error ends the shot (`shootSteps`: `.failed` ⇒ `.done`) -/
+theorem scenarioOnStepError_eq : Gen.GrpcGun.scenarioOnStepError = "range $0.Calls: return the step's error" := rfl
+/-- every shot starts with empty request variables (`runSched` starts every shot with `{ a := none, i := none }`) -/
+theorem scenarioRequestVars_eq : Gen.GrpcGun.scenarioRequestVars = "$1[\"request\"] = map[string]any{}" := rfl
+/-- a step's own variables are emptied before its templates are rendered (`svFor`: the `auth` step does not see the
+token of an earlier `auth`) -/
+theorem scenarioStepVarsReset_eq :
+    Gen.GrpcGun.scenarioStepVarsReset = "$4[$0.Name] = map[string]any{}; before templ.Apply=true" := rfl
+/-- exactly one sample per step, whatever path the step takes -/
+theorem scenarioSampleReport_eq :
+    Gen.GrpcGun.scenarioSampleReport = "defer reports the sample=true; no return before it=true" := rfl
+/-- a template that cannot be parsed / executed ends the step before the call (`callBad`) -/
+theorem scenarioTemplateErrorOrder_eq :
+    Gen.GrpcGun.scenarioTemplateErrorOrder = "templ.Apply; if its error != nil return; … InvokeRpc" := rfl
 
 /-! ### the templater renders EVERY metadata value -/
 
